@@ -237,7 +237,7 @@ def script_dims(part):
 
 
 def _script_point(idx):
-    vals = decode_point(idx, script_dims(P))
+    vals = decode_point(idx, script_dims)
     dc, seg = vals[0], vals[1]
     calls = [c for c in vals[2:-1] if c is not None]
     fin, m = vals[-1]
